@@ -408,37 +408,38 @@ func evalStoreVal(r *core.Run, id, fnName, typeDotField string, allowed []string
 	if fn == nil {
 		return
 	}
-	res := r.Resolver(fn)
 	n := 0
-	for _, b := range fn.Blocks {
-		for _, ins := range b.Instrs {
-			st, ok := ins.(*ssa.Store)
-			if !ok {
-				continue
-			}
-			fa, ok := st.Addr.(*ssa.FieldAddr)
-			if !ok {
-				continue
-			}
-			if shortTypeName(fa.X.Type())+"."+fieldNameT(fa.X.Type(), fa.Field) != typeDotField {
-				continue
-			}
-			n++
-			key := core.Key(id, fnName, "store "+typeDotField)
-			if n > 1 {
-				key += fmt.Sprintf("#%d", n)
-			}
-			vt := normT(res.Of(st.Val).String())
-			ok2 := false
-			for _, g := range allowed {
-				if guard.Glob(normT(g)).MatchString(vt) {
-					ok2 = true
+	for _, fr := range frames(r, fn) {
+		for _, b := range fr.Fn.Blocks {
+			for _, ins := range b.Instrs {
+				st, ok := ins.(*ssa.Store)
+				if !ok {
+					continue
 				}
-			}
-			if ok2 {
-				r.Discharge(id, key, r.P.Pos(st.Pos()), what+": value is "+vt)
-			} else {
-				r.Violate(id, key, r.P.Pos(st.Pos()), fmt.Sprintf("%s: %s assigns %s to %s, allowed: %s", what, fnName, vt, typeDotField, strings.Join(allowed, " | ")))
+				fa, ok := st.Addr.(*ssa.FieldAddr)
+				if !ok {
+					continue
+				}
+				if shortTypeName(fa.X.Type())+"."+fieldNameT(fa.X.Type(), fa.Field) != typeDotField {
+					continue
+				}
+				n++
+				key := core.Key(id, fnName, "store "+typeDotField)
+				if n > 1 {
+					key += fmt.Sprintf("#%d", n)
+				}
+				vt := fr.T(r, st.Val)
+				ok2 := false
+				for _, g := range allowed {
+					if guard.Glob(normT(g)).MatchString(vt) {
+						ok2 = true
+					}
+				}
+				if ok2 {
+					r.Discharge(id, key, r.P.Pos(st.Pos()), what+": value is "+vt)
+				} else {
+					r.Violate(id, key, r.P.Pos(st.Pos()), fmt.Sprintf("%s: %s assigns %s to %s, allowed: %s", what, fnName, vt, typeDotField, strings.Join(allowed, " | ")))
+				}
 			}
 		}
 	}
